@@ -316,6 +316,13 @@ CRASH = {
         ('javalang-so', '\n\nThe system is out of resources.\nConsult the following stack trace for details.\n'
          'java.lang.StackOverflowError\n' + '\tat jdk.compiler/com.sun.tools.javac.code.Types$15.visitClassType(Types.java:2290)\n' * 12),
         ('javalang-ise', _JAVAC_BUG + 'java.lang.IllegalStateException\n' + _JAVAC_FRAMES),
+        # the exception name does not start its line: JVM-level report of the launcher thread, and a
+        # wrapped exception (ClientCodeException / Caused by:)
+        ('javalang-midline-thread', 'Exception in thread "main" java.lang.StackOverflowError\n'
+         + '\tat jdk.compiler/com.sun.tools.javac.code.Types$15.visitClassType(Types.java:2290)\n' * 9),
+        ('javalang-midline-wrapped', _JAVAC_BUG + 'com.sun.tools.javac.util.ClientCodeException: '
+         'java.lang.NullPointerException\n' + _JAVAC_FRAMES + 'Caused by: java.lang.NullPointerException\n'
+         '\tat jdk.compiler/com.sun.tools.javac.comp.Attr.visitApply(Attr.java:2345)\n'),
         # same report, exception class outside java.lang (javac prints ex.printStackTrace after the banner)
         ('nonjavalang', _JAVAC_BUG + 'java.util.NoSuchElementException\n'
          '\tat jdk.compiler/com.sun.tools.javac.util.List$2.next(List.java:432)\n' + _JAVAC_FRAMES),
